@@ -1,5 +1,6 @@
 import Bng.Drv.Common
 import Bng.Model.PppoeServer
+import Bng.Model.PppoeMonitor
 /-
   bngdrv component `pppoesrv`: replays traces of the real pppoe.Server and runs the C04 monitor on the
   implementation's observations.
@@ -13,11 +14,7 @@ import Bng.Model.PppoeServer
          => sent=<frames|-> sess=<sid:mac:STATE:auth|unauth:ip|-,…|-> pool=<free>/<allocated>
 -/
 namespace Bng.Drv.PppoeServerDrv
-open Bng Bng.Drv Bng.PppoeServer
-
-def stateName : SState → String
-  | .disc => "DISC" | .lcp => "LCP" | .auth => "AUTH" | .ipcp => "IPCP" | .est => "EST"
-  | .term => "TERM" | .closed => "CLOSED"
+open Bng Bng.Drv Bng.PppoeServer Bng.PppoeMon
 
 def showOut : Out → String
   | .pado m => s!"PADO>m{m}"
@@ -33,18 +30,9 @@ def showOut : Out → String
   | .ipcpnak (some ip) sid m => s!"IPCPNAK[{ip}]:{sid}>m{m}"
   | .ipcpnak none sid m => s!"IPCPNAK:{sid}>m{m}"
 
-def insertSorted (x : Sess) : List Sess → List Sess
-  | [] => [x]
-  | y :: rest => if x.id ≤ y.id then x :: y :: rest else y :: insertSorted x rest
-
-def showSess (x : Sess) : String :=
-  let ip := match x.ip with | some a => toString a | none => "-"
-  s!"{x.id}:m{x.mac}:{stateName x.state}:{if x.authed then "auth" else "unauth"}:{ip}"
-
 def showSrv (s : Srv) (outs : List Out) : String :=
   let j := fun (l : List String) => if l.isEmpty then "-" else ",".intercalate l
-  let ss := s.sessions.foldl (fun acc p => insertSorted p.2 acc) []
-  s!"sent={j (outs.map showOut)} sess={j (ss.map showSess)} pool={s.avail.length}/{s.alloc.length}"
+  s!"sent={j (outs.map showOut)} sess={j ((sortedSess s).map showSess)} pool={s.avail.length}/{s.alloc.length}"
 
 def parseIn (toks : List String) : Option In :=
   match toks with
@@ -74,25 +62,8 @@ def parseIn (toks : List String) : Option In :=
   | ["sweep"] => some .sweep
   | _ => none
 
-/-! ### the C04 monitor: works on the implementation's observations only -/
-
-/-- a session as reported by the implementation -/
-structure Seen where
-  sid : Nat
-  mac : Nat
-  state : String
-  ip : String
-  raw : String
-  deriving BEq
-
-structure Mon where
-  owner : AMap Nat Nat := []     -- sid → MAC the session was created for (from PADS)
-  authOK : List Nat := []        -- sessions whose own PAP exchange was accepted
-  prev : List Seen := []
-  radius : Bool := false
-  /-- addresses known to be stranded by the idle sweep (recorded finding KF-pppoe-idle-leak) -/
-  stranded : Nat := 0
-  total : Nat := 0
+/-! ### the string layer of the monitor: the observation line → `PppoeMon.Obs`
+   (the monitor itself is `PppoeMon.monitorCore`, proved silent on every model history) -/
 
 def parseSeen (s : String) : List Seen :=
   if s == "-" then [] else
@@ -100,7 +71,7 @@ def parseSeen (s : String) : List Seen :=
     match item.splitOn ":" with
     | [sid, m, st, _, ip] => do
         let sid ← sid.toNat?; let m ← parseTagged 'm' m
-        pure { sid := sid, mac := m, state := st, ip := ip, raw := item }
+        pure { sid := sid, mac := m, est := st == "EST", hasIp := ip != "-", raw := item }
     | _ => none
 
 def field (impl key : String) : String :=
@@ -108,83 +79,24 @@ def field (impl key : String) : String :=
   | some t => (t.drop (key.length + 1)).toString
   | none => ""
 
-/-- frames sent: (kind incl. optional [ip], sid) -/
-def parseSent (s : String) : List (String × Nat) :=
+def parseSent (s : String) : List Sent :=
   if s == "-" || s.isEmpty then [] else
   (s.splitOn ",").filterMap fun item =>
     match (item.splitOn ">") with
     | [l, _] => match l.splitOn ":" with
-      | [k, sid] => sid.toNat?.map fun n => (k, n)
+      | [k, sid] => sid.toNat?.map fun n =>
+          { sid := n, pads := k == "PADS", ipcpAns := k == "IPCPACK" || k.startsWith "IPCPNAK[", kind := k }
       | _ => none
     | _ => none
 
-def monitor (mn : Mon) (i : In) (impl : String) : Mon × List (String × String × String) :=
-  let seen := parseSeen (field impl "sess")
-  let sent := parseSent (field impl "sent")
-  -- 1. bookkeeping from what was observed
-  let owner := sent.foldl (fun o (k, sid) =>
-      if k == "PADS" then
-        match i with
-        | .padr m _ => AMap.insert o sid m
-        | _ => o
-      else o) mn.owner
-  let authOK := sent.foldl (fun a (k, sid) => if k == "PADS" then a.filter (· ≠ sid) else a) mn.authOK
-  let authOK := match i with
-    | .pap m sid pw r =>
-      if AMap.lookup owner sid = some m ∧ (mn.prev.any (·.sid == sid)) ∧ (!mn.radius || (decide (r = Radius.accept) && decide (pw ≠ Pw.empty)))
-      then (if authOK.contains sid then authOK else sid :: authOK) else authOK
-    | _ => authOK
-  -- 2. service only after authentication
-  let v1 := seen.filterMap fun x =>
-    if (x.state == "EST" || x.ip != "-") && !authOK.contains x.sid then
-      some ("service-without-auth", "none", s!"session {x.raw} has service but its PAP exchange was never accepted")
-    else none
-  let v2 := sent.filterMap fun (k, sid) =>
-    if (k == "IPCPACK" || k.startsWith "IPCPNAK[") && !authOK.contains sid then
-      some ("ipcp-without-auth", "none", s!"{k} sent for session {sid} before its authentication")
-    else none
-  -- 3. frames from a MAC that does not own the session are inert
-  let target : Option (Nat × Nat) := match i with
-    | .padt m sid | .lcp m sid _ | .pap m sid _ _ | .ipcp m sid _ | .ip m sid => some (m, sid)
-    | _ => none
-  let v3 := match target with
-    | some (m, sid) =>
-      match AMap.lookup mn.owner sid, mn.prev.find? (·.sid == sid) with
-      | some o, some before =>
-        if o ≠ m then
-          let after := seen.find? (·.sid == sid)
-          (if after != some before then
-            [("foreign-mac", "none", s!"frame from m{m} changed session {sid} owned by m{o}: {before.raw} -> {(after.map (·.raw)).getD "removed"}")]
-           else []) ++
-          (if sent.any (fun (_, s2) => s2 == sid) then
-            [("foreign-mac", "none", s!"frame from m{m} made the server answer on session {sid} owned by m{o}")] else [])
-        else []
-      | _, _ => []
-    | none => []
-  -- 4. (C16/C05) every address recorded as allocated belongs to a live session, nothing is lost
-  let poolTok := (field impl "pool").splitOn "/"
-  let (free, alloc) := match poolTok with
+def parseObs (impl : String) : Obs :=
+  let (free, alloc) := match (field impl "pool").splitOn "/" with
     | [f, a] => (f.toNat?.getD 0, a.toNat?.getD 0)
     | _ => (0, 0)
-  let holders := (seen.filter (·.ip != "-")).length
-  let sweptNow := match i with
-    | .sweep => (mn.prev.filter (·.ip != "-")).length
-    | _ => 0
-  let stranded := mn.stranded + sweptNow
-  let v4 :=
-    (if sweptNow > 0 then
-      [("residue", "KF-pppoe-idle-leak", s!"the idle sweep removed {sweptNow} session(s) without returning their address")]
-     else []) ++
-    (if alloc ≠ holders + stranded then
-      [("residue", "none", s!"{alloc} addresses recorded as allocated but {holders} live sessions hold one (+{stranded} stranded by sweeps)")]
-     else []) ++
-    (if mn.total ≠ 0 ∧ free + alloc ≠ mn.total then
-      [("conservation", "none", s!"free {free} + allocated {alloc} ≠ pool size {mn.total}")] else [])
-  -- sessions that disappeared lose their record
-  let live := seen.map (·.sid)
-  let owner := owner.filter fun p => live.contains p.1
-  let authOK := authOK.filter fun sid => live.contains sid
-  ({ mn with owner := owner, authOK := authOK, prev := seen, stranded := stranded }, v1 ++ v2 ++ v3 ++ v4)
+  { seen := parseSeen (field impl "sess"), sent := parseSent (field impl "sent"), free := free, alloc := alloc }
+
+def monitor (mn : Mon) (i : In) (impl : String) : Mon × List (String × String × String) :=
+  monitorCore mn i (parseObs impl)
 
 structure St where
   model : Option Srv := none
@@ -201,7 +113,11 @@ def step (st : St) (toks : List String) (impl : String) : St × LineResult :=
     | some m, some i =>
       let (m', outs) := PppoeServer.step m i
       let (mon', vs) := monitor st.mon i impl
-      ({ model := some m', mon := mon' }, { modelObs := showSrv m' outs, viols := vs })
+      -- the string layer is outside `monitor_silent_on_model`: cross-check it on the model's own line
+      let shown := showSrv m' outs
+      let rt := if parseObs shown == obsOf m' outs then [] else
+        [("obs-roundtrip", "none", s!"parseObs (showSrv ·) ≠ obsOf · on the model's own observation {shown}")]
+      ({ model := some m', mon := mon' }, { modelObs := shown, viols := vs ++ rt })
     | _, _ => (st, { modelObs := "badop" })
 
 def component : Component := { σ := St, init := {}, step := step }
